@@ -1,5 +1,5 @@
 #!/usr/bin/env python3
-"""seeded_regress.py [--jobs N] [--tier quick] [prefix]: run the check of each seeded
+"""seeded_regress.py [--jobs N] [--tier quick] [substring]: run the check of each seeded
 change's own property against a scratch worktree of /repo with the change
 applied (no suite, no demonstration: that is tools/confirm_seed.py's job) and
 write seeded/REGRESSION.md.  Every change must make its check exit 1."""
@@ -59,8 +59,9 @@ with cf.ThreadPoolExecutor(jobs) as ex:
         print('%-60s %s %s (%.0fs) %s' % (row[0][:60], row[1], row[2], row[4], ', '.join(row[3])[:120]), flush=True)
 subprocess.run(['git', '-C', '/repo', 'worktree', 'prune'])
 bad = [r for r in rows if r[2] != 'exit 1']
-if not prefix:
-    with open(os.path.join(V, 'seeded', 'REGRESSION.md'), 'w') as f:
+if True:
+    fn = 'REGRESSION.md' if not prefix else 'REGRESSION-%s.md' % prefix.strip('-')
+    with open(os.path.join(V, 'seeded', fn), 'w') as f:
         f.write('# Regression run of the registered checks over all seeded changes\n\n'
                 '`tools/seeded_regress.py` (%s tier): the check of each change\'s own property, run against a scratch worktree\n'
                 'of /repo with the change applied, must exit 1.  %d changes, %d not caught.\n\n'
